@@ -52,6 +52,57 @@ def _closure_defs(j):
     return d
 
 
+def _single_def(j, l):
+    """the one definition of local l: ('assign', rvalue) | ('call', term) | None"""
+    found = []
+    for blk in j['blocks']:
+        for st in blk['stmts']:
+            if st['k'] == 'assign' and st['p']['l'] == l and not st['p']['pr']:
+                found.append(('assign', st['r']))
+        t = blk['term']
+        if t['k'] == 'call' and t['dest']['l'] == l and not t['dest']['pr']:
+            found.append(('call', t))
+    return found[0] if len(found) == 1 else None
+
+
+def _fixed_array_source(j, a0):
+    """`arr.iter()` over a fixed-size array behind the `&mut Iter` handed to a by-reference adaptor: (array place, length)"""
+    import re
+    if a0.get('k') not in ('move', 'copy') or a0['p']['pr']:
+        return None
+    d = _single_def(j, a0['p']['l'])
+    if not d or d[0] != 'assign' or d[1].get('k') != 'ref' or d[1]['p']['pr']:
+        return None
+    d = _single_def(j, d[1]['p']['l'])
+    if not d or d[0] != 'call' or not re.search(r'core::slice::(<impl \[T\]>::)?iter$', d[1]['callee'].get('path', '')) or len(d[1]['args']) != 1:
+        return None
+    a = d[1]['args'][0]
+    for _ in range(3):
+        if a.get('k') not in ('move', 'copy') or a['p']['pr']:
+            return None
+        d = _single_def(j, a['p']['l'])
+        if not d or d[0] != 'assign':
+            return None
+        r = d[1]
+        if r.get('k') == 'cast' and 'Unsize' in r.get('ck', ''):
+            m = re.match(r'^&\[(.+); (\d+)\]$', r.get('from', ''))
+            if not m:
+                return None
+            n = int(m.group(2))
+            a = r['a']
+            if a.get('k') not in ('move', 'copy') or a['p']['pr']:
+                return None
+            d2 = _single_def(j, a['p']['l'])
+            if not d2 or d2[0] != 'assign' or d2[1].get('k') != 'ref':
+                return None
+            return d2[1]['p'], n, m.group(1)
+        if r.get('k') == 'use':
+            a = r['a']
+            continue
+        return None
+    return None
+
+
 def desugar_body(j, bodies):
     """bodies: path -> body json (closure bodies already desugared). Rewrites j in place; returns the number of rewrites."""
     n = 0
@@ -89,6 +140,13 @@ def desugar_body(j, bodies):
             j['blocks'].append({'cleanup': False, 'stmts': stmts, 'term': term})
             return len(j['blocks']) - 1
 
+        if name in ('position', 'any', 'all'):
+            fa = _fixed_array_source(j, t['args'][0])
+            if fa is not None and fa[1] <= 8 and _unroll(j, bi, t, name, f, cj, fa, new, newblock):
+                j.setdefault('desugared', []).append([name + '/unrolled', ds[0]])
+                cd = None
+                n += 1
+                continue
         pre = j['blocks'][bi]['stmts']
         self_ty = c.get('self_ty') or '?'
         item_ty = cj['locals'][want]['ty']
@@ -197,6 +255,53 @@ def desugar_body(j, bodies):
         cd = None
         n += 1
     return n
+
+
+def _unroll(j, bi, t, name, f, cj, fa, new, newblock):
+    """position / any / all over a fixed-size array: the chain of tests `pred(&a[0])`, `pred(&a[1])`, .. the unrolled spelling
+    would have produced"""
+    arr, n, elem = fa
+    loc = t['loc']
+    dest, T = t['dest'], t['target']
+    L = j['locals']
+    if name == 'position':
+        xr = _opt('None', [])
+    else:
+        xr = _use(_cst('bool', 0 if name == 'any' else 1, 'false' if name == 'any' else 'true'))
+    XB = newblock([{'k': 'assign', 'p': dest, 'r': xr, 'loc': loc}], {'k': 'goto', 'target': T, 'loc': loc})
+    nxt = XB
+    for k in reversed(range(n)):
+        loff = len(L)
+        for i, l in enumerate(cj['locals']):
+            l = dict(l)
+            if i <= 1:
+                l['names'] = []
+            L.append(l)
+        poff = len(j.get('promoted', []))
+        j['promoted'] = list(j.get('promoted', [])) + list(cj.get('promoted', []))
+        R = new(cj['locals'][0]['ty'])
+        AFT = newblock([], None)
+        BB = newblock([], None)
+        boff = len(j['blocks'])
+        for blk in copy.deepcopy(cj['blocks']):
+            j['blocks'].append(_remap_block(blk, loff, boff, poff, AFT, _pl(R), loff))
+        elt = {'l': arr['l'], 'pr': list(arr['pr']) + [{'cidx': k, 'from_end': False}]}
+        j['blocks'][BB]['stmts'] = [_asg(loff + 1, _use({'k': 'copy', 'p': f['p']}), loc),
+                                    _asg(loff + 2, {'k': 'ref', 'mut': False, 'p': elt}, loc)]
+        j['blocks'][BB]['term'] = {'k': 'goto', 'target': boff, 'loc': loc}
+        if name == 'position':
+            hit = newblock([{'k': 'assign', 'p': dest, 'r': _opt('Some', [_cst('usize', k, '%d_usize' % k)]), 'loc': loc}], {'k': 'goto', 'target': T, 'loc': loc})
+            at = {'k': 'switch', 'discr': {'k': 'copy', 'p': _pl(R)}, 'discr_ty': 'bool', 'arms': [[0, nxt]], 'otherwise': hit, 'loc': loc}
+        elif name == 'any':
+            hit = newblock([{'k': 'assign', 'p': dest, 'r': _use(_cst('bool', 1, 'true')), 'loc': loc}], {'k': 'goto', 'target': T, 'loc': loc})
+            at = {'k': 'switch', 'discr': {'k': 'copy', 'p': _pl(R)}, 'discr_ty': 'bool', 'arms': [[0, nxt]], 'otherwise': hit, 'loc': loc}
+        else:
+            miss = newblock([{'k': 'assign', 'p': dest, 'r': _use(_cst('bool', 0, 'false')), 'loc': loc}], {'k': 'goto', 'target': T, 'loc': loc})
+            at = {'k': 'switch', 'discr': {'k': 'copy', 'p': _pl(R)}, 'discr_ty': 'bool', 'arms': [[0, miss]], 'otherwise': nxt, 'loc': loc}
+        j['blocks'][AFT]['term'] = at
+        nxt = BB
+    j['blocks'][bi]['term'] = {'k': 'goto', 'target': nxt, 'loc': loc}
+    return True
 
 
 def desugar_all(J):
